@@ -224,12 +224,17 @@ func failureModeFor(v uint32) libaudit.FailureMode {
 }
 
 // runClientScript drives one AuditClient against a scripted kernel.
-func runClientScript(sc *clScript) ([]clRec, bool) {
+func runClientScript(sc *clScript) ([]clRec, [2]bool) {
 	k := newSimKernel()
 	c := &libaudit.AuditClient{Netlink: k}
 	var recs []clRec
 	type kept struct{ got, snap [][]byte }
 	var keptRules []kept
+	type keptStatus struct {
+		got  *libaudit.AuditStatus
+		snap []int
+	}
+	var keptStatuses []keptStatus
 	cands := map[int]bool{}
 	for _, op := range sc.Ops {
 		k.plan, k.nreq, k.sent, k.pops, k.closes = op.Plan, 0, nil, 0, 0
@@ -260,6 +265,7 @@ func runClientScript(sc *clScript) ([]clRec, bool) {
 				st, err = c.GetStatus()
 				if err == nil && st != nil {
 					r.Data = [][]int{status44(st)}
+					keptStatuses = append(keptStatuses, keptStatus{st, status44(st)})
 				}
 			case "GetRules":
 				var rules [][]byte
@@ -345,7 +351,13 @@ func runClientScript(sc *clScript) ([]clRec, bool) {
 			}
 		}
 	}
-	return recs, stable
+	statusStable := true
+	for _, ks := range keptStatuses {
+		if !sameInts(status44(ks.got), ks.snap) {
+			statusStable = false
+		}
+	}
+	return recs, [2]bool{stable, statusStable}
 }
 
 func sameClientRecs(pred, real []clRec) bool {
@@ -416,7 +428,7 @@ func clientRunCmd(args []string) int {
 	})
 	type result struct {
 		recs   []clRec
-		stable bool
+		stable [2]bool
 	}
 	results := make([]result, len(scripts))
 	var wg sync.WaitGroup
@@ -441,7 +453,7 @@ func clientRunCmd(args []string) int {
 	for i, s := range scripts {
 		judge := *all || s.Pred == nil
 		if s.Pred != nil {
-			if sameClientRecs(s.Pred, results[i].recs) && results[i].stable {
+			if sameClientRecs(s.Pred, results[i].recs) && results[i].stable == [2]bool{true, true} {
 				stats["equal_to_prediction"]++
 				if *sample > 0 && i%*sample == 0 {
 					judge = true
@@ -498,7 +510,7 @@ func clientRunCmd(args []string) int {
 				w.write(r)
 				stats["records"]++
 			}
-			w.write(map[string]interface{}{"k": "endtrace", "rules_stable": results[i].stable})
+			w.write(map[string]interface{}{"k": "endtrace", "rules_stable": results[i].stable[0], "status_stable": results[i].stable[1]})
 		}
 	}
 	w.close()
